@@ -312,6 +312,17 @@ def split_before_whitespace_decision(ctx, rule):
 
 
 def run(ctx):
+    ctx.rule("R08.5", "the SIMD scan (taken only when exact_errors is off) counts exactly the line breaks it consumes (shared with R09.6): line numbers do not depend on the option")
+    def simd():
+        import rules.C09 as c9
+        obs_before = len(ctx.obs)
+        c9.r09_6(ctx)
+        for o in ctx.obs[obs_before:]:
+            if o["rule"] == "R09.6":
+                o["rule"] = "R08.5"
+        for k in [k for k in ctx.floors if k.startswith("R09.6.")]:
+            ctx.floors["R08.5." + k[len("R09.6."):]] = ctx.floors.pop(k)
+    ctx.guard("R08.5", "simd", simd)
     ctx.rule("R08.4", "every insertion mode that treats whitespace specially splits an unsplit character token first (SplitWhitespace)")
     ctx.guard("R08.4", "split", lambda: split_before_whitespace_decision(ctx, "R08.4"))
     ctx.rule("R08.1", "for every pop_except_from site S contains the arm's special characters and everything get_preprocessed_char rewrites: slow path == fast path (HTML and XML)")
